@@ -13,18 +13,13 @@ macro_rules! vkey_int {
 vkey_int!(u8, u16, u32, u64, usize, bool, char);
 
 impl VKey for str {
+    /// loop-free (no unwinding bound needed): length in the low byte, then up to 7 bytes
     fn vkey(&self) -> u64 {
         let b = self.as_bytes();
-        assert!(b.len() <= 7, "vcoll: string keys longer than 7 bytes are not modelled");
-        let mut v = b.len() as u64;
-        let mut i = 0;
-        while i < 7 {
-            if i < b.len() {
-                v = (v << 8) | b[i] as u64;
-            }
-            i += 1;
-        }
-        v
+        let n = b.len();
+        assert!(n <= 7, "vcoll: string keys longer than 7 bytes are not modelled");
+        let at = |i: usize| -> u64 { if i < n { (b[i] as u64) << (8 * (i + 1)) } else { 0 } };
+        (n as u64) | at(0) | at(1) | at(2) | at(3) | at(4) | at(5) | at(6)
     }
 }
 impl VKey for String {
@@ -40,5 +35,20 @@ impl<'a> VKey for std::borrow::Cow<'a, str> {
 impl<T: VKey + ?Sized> VKey for &T {
     fn vkey(&self) -> u64 {
         (**self).vkey()
+    }
+}
+
+impl VKey for std::net::SocketAddr {
+    /// IPv4 address and port packed into 48 bits (injective); IPv6 is a model limit
+    fn vkey(&self) -> u64 {
+        match self {
+            std::net::SocketAddr::V4(a) => ((u32::from(*a.ip()) as u64) << 16) | a.port() as u64,
+            std::net::SocketAddr::V6(_) => panic!("vcoll: IPv6 socket addresses are not modelled as keys"),
+        }
+    }
+}
+impl VKey for (u8, std::net::SocketAddr) {
+    fn vkey(&self) -> u64 {
+        ((self.0 as u64) << 48) | self.1.vkey()
     }
 }
